@@ -371,9 +371,20 @@ with eval_pairs (cx : ctx) (fuel : nat) (en : env) (ps : list (bytes * expr)) {s
 Definition str_of (v : value) : outcome bytes :=
   match value_string v with Some s => Ok s | None => Unmodelled end.
 
-(* component arguments: newEnv.Set(key, val) with the error ignored *)
-Definition env_set_ignore (e : env) (k : bytes) (v : value) : env :=
-  match env_set e k v with inl e' => e' | inr _ => e end.
+(* component arguments, in key order: each value is evaluated at the place of use (en) and bound
+   in the component's own scope chain (ne); a binding that Env.Set refuses - the name is visible
+   with another type, or is the reserved name loop - fails the render at the component's line *)
+Fixpoint bind_args (cx : ctx) (f : nat) (ln : nat) (en : env) (ps : list (bytes * expr)) (ne : env)
+  {struct ps} : outcome env :=
+  match ps with
+  | [] => Ok ne
+  | (k, x) :: ps' =>
+    let! v := eval_expr cx f en x in
+    match env_set ne k v with
+    | inl ne' => bind_args cx f ln en ps' ne'
+    | inr msg => Fail ln msg
+    end
+  end.
 
 (* Statements return the Go object and the environment chain as it is afterwards
    (only the innermost frame can have changed, see Proofs/Scopes.v). *)
@@ -455,9 +466,7 @@ Fixpoint eval_stmt (cx : ctx) (fuel : nat) (en : env) (s : stmt) {struct fuel} :
       | Some ss =>
         let! en1 :=
           (match arg with
-           | Some (EObj _ pairs) =>
-             let! kvs := eval_pairs cx f en (asort pairs) in
-             Ok (fold_left (fun e kv => env_set_ignore e (fst kv) (snd kv)) kvs ([] :: en))
+           | Some (EObj _ pairs) => bind_args cx f ln en (asort pairs) ([] :: en)
            | Some _ => Panic
            | None => Ok ([] :: en)
            end) in
